@@ -47,7 +47,9 @@ pub fn c18_case(rep: &mut Report, seed: u64, idx: u64, verbose: bool) {
     rep.evaluations += 1;
     let mut world: World<RingApp> = World::new(baud, rng.next_u64());
     let mut b = fdl::ParametersBuilder::new(ts, baud);
-    b.slot_bits(slot_bits).highest_station_address(hsa).token_rotation_bits(50_000).gap_wait_rotations(100);
+    // (a tiny TTR makes every token visit a "high priority only" visit)
+    let ttr = *rng.pick(&[256u32, 256, 3000, 50_000]);
+    b.slot_bits(slot_bits).highest_station_address(hsa).token_rotation_bits(ttr).gap_wait_rotations(100);
     let app = if scanner { RingApp::Scan(Tap::new(DpScanner::new())) } else { RingApp::Live(Tap::new(LiveList::new())) };
     world.add_station(b.build(), app, period.max(1), 5);
     world.set_online(0);
@@ -81,7 +83,7 @@ pub fn c18_case(rep: &mut Report, seed: u64, idx: u64, verbose: bool) {
             core: core.clone(),
             script: Rc::new(RefCell::new(Vec::new())),
             random_fault_pct: pct.clone(),
-            random_alphabet: vec![Fault::RequestLost, Fault::ReplyLost, Fault::ReplyCorrupted],
+            random_alphabet: vec![Fault::RequestLost, Fault::ReplyLost, Fault::ReplyCorrupted, Fault::LateReply],
             log: Rc::new(RefCell::new(Vec::new())),
             min_tsdr_bits: 11,
             max_tsdr_bits: 40,
@@ -152,8 +154,17 @@ pub fn c18_case(rep: &mut Report, seed: u64, idx: u64, verbose: bool) {
         match &mut world.stations[0].apps {
             RingApp::Live(a) => {
                 a.log.clear();
+                if verbose {
+                    let got: BTreeSet<u8> = a.inner.iter_stations().collect();
+                    if got != known_live {
+                        eprintln!("  t={} list {:?} events-say {:?}", world.now, got, known_live);
+                    }
+                }
                 if let Some(ev) = a.inner.take_last_event() {
                     n_events += 1;
+                    if verbose {
+                        eprintln!("  t={} event {:?} app-probes {:?}", world.now, ev, app_probe_times);
+                    }
                     match ev {
                         StationEvent::Discovered(d) => {
                             if !known_live.insert(d.address) {
@@ -257,7 +268,22 @@ pub fn c18_case(rep: &mut Report, seed: u64, idx: u64, verbose: bool) {
             }
         }
     }
+    // A late reply can overlap the station's next request.  The overlapped bytes are garbled at random
+    // and one garbled byte in 255 is 0xE5, a complete short acknowledgement which no receiver can tell
+    // from a real one.  Noise of that kind is outside the fault class of C18 (lost replies), so a case
+    // in which transmissions overlapped is not judged.
+    if world.bus.borrow().collisions > 0 {
+        rep.count("C18_cases_not_judged_because_transmissions_overlapped");
+        return;
+    }
     if let Some((sig, what)) = viol {
+        if verbose {
+            let bus = world.bus.borrow();
+            let n = bus.trace.len();
+            for f in &bus.trace[n.saturating_sub(60)..] {
+                eprintln!("  t={} port={} {}", f.start, f.sender, f.decoded.as_ref().map(|d| d.short()).unwrap_or_else(|| "<undecodable>".into()));
+            }
+        }
         rep.violation(sig, format!("{} [{}]", what, descr));
         return;
     }
